@@ -1,6 +1,9 @@
 package main
 
-import "strings"
+import (
+	"math"
+	"strings"
+)
 
 // Fixed witnesses of the defects found with this check (run first, forever).
 
@@ -40,6 +43,14 @@ func manyMembers(n int) []Member {
 		ms[i] = Member{Role: roleVocab[i%3], ID: ID{0, nsNode, uint64(1 + i%2)}}
 	}
 	return ms
+}
+
+// offGrid is a square of the given size in metres whose corners are not on the E7 grid
+func offGrid(lat, lng, metres float64) [][2]float64 {
+	d := metres / 111320.0
+	dl := d / math.Cos(lat*math.Pi/180)
+	la, ln := lat+0.123456789e-3, lng+0.987654321e-3
+	return [][2]float64{{la, ln}, {la, ln + dl}, {la + d, ln + dl}, {la + d, ln}}
 }
 
 func manyTags(n int) []Tag {
@@ -94,6 +105,12 @@ func corpus() []witness {
 			Feat{ID: ID{2, "custom", 21}, Polys: []Poly{finishPoly(Poly{Raw: [][][2]float64{sq(51.8, -0.12, 0.0009), tinyLoop(51.8, -0.10), sq(51.8, -0.08, 0.0009), sq(51.8, -0.08, 0.0003)}})}},
 			Feat{ID: ID{2, "custom", 22}, Polys: []Poly{finishPoly(Poly{Raw: [][][2]float64{sq(51.9, -0.12, 0.0009), tinyLoop(51.9, -0.10)}}), {Paths: []ID{{1, nsWay, 10}}}}},
 			loop)},
+		// explicit polygons of 1 m, 6 m and 30 m whose vertices are off the E7 grid, near the equator, in London and in
+		// the Arctic: the 0.01 % area tolerance of lastMarshalledLoopIsValid dropped them (Len() == 0)
+		{"small-polygons", with(
+			Feat{ID: ID{2, "custom", 30}, Polys: []Poly{finishPoly(Poly{Raw: [][][2]float64{offGrid(0.3, 36.8, 1)}})}},
+			Feat{ID: ID{2, "custom", 31}, Polys: []Poly{finishPoly(Poly{Raw: [][][2]float64{offGrid(51.5, -0.1, 6)}}), finishPoly(Poly{Raw: [][][2]float64{offGrid(51.6, -0.1, 30)}})}},
+			Feat{ID: ID{2, "custom", 32}, Polys: []Poly{finishPoly(Poly{Raw: [][][2]float64{offGrid(69.7, 18.9, 3), offGrid(69.71, 18.9, 10)}})}})},
 		// a string longer than 64 KB (an item of the string table)
 		{"heavy-string", with(pt(nsNode, 70, 515400000, -1000000, str("note", strings.Repeat("0123456789abcdef", 4400))))},
 		// a point whose record is longer than 64 KB (34 000 short tags): the scratch bucket, the buffers of
